@@ -244,7 +244,19 @@ pub fn load_keys_map_from_disk() -> HashMap<String, u64> {
         // May I should move this out of here
         log::debug!("Will read from disck");
         let mut file = File::open(db_file_name).unwrap();
-        initial_db = bincode::deserialize_from(&mut file).unwrap();
+        initial_db = match bincode::deserialize_from(&mut file) {
+            Ok(keys) => keys,
+            Err(e) => {
+                // A kill during write_keys_map_to_disk leaves a partial file. Without the keys the op-log
+                // cannot be decoded: flag it invalid so start up discards it and asks for a full sync
+                log::warn!("Keys file is not readable ({}), invalidating the op-log", e);
+                let mut flag_file = get_invalidate_file_write_mode();
+                flag_file.seek(SeekFrom::Start(0)).unwrap();
+                flag_file.write(&[0]).unwrap();
+                flag_file.flush().unwrap();
+                HashMap::new()
+            }
+        };
     }
     return initial_db;
 }
